@@ -35,7 +35,7 @@ def job(prop, topo, cfg, budget_s=120, split_depth=None):
     cfg = dict(cfg)
     jid = (f"{topo['name']}|cache={int(cfg['cache'])}|lazy={int(cfg['lazy'])}|sync={''.join(cfg['sync']) or '-'}"
            f"|until={cfg['until']}|K={cfg['K']}|D={cfg['D']}|salt={cfg['salt']}"
-           + (f"|fut" if cfg.get('future_outputs') else '') + (f"|remote={''.join(cfg['remote'])}" if cfg.get('remote') else '')
+           + (f"|fut" if cfg.get('future_outputs') else '') + ("|none" if cfg.get('none_values') else '') + (f"|remote={''.join(cfg['remote'])}" if cfg.get('remote') else '')
            + (f"|cmd={''.join(cfg['remote_cmd'])}|linger={''.join(cfg.get('linger', ()))}" if cfg.get('remote_cmd') else ''))
     j = {'id': jid, 'harness': 'vk.sysrun:system', 'params': {'topo': topo, 'cfg': cfg}, 'budget_s': budget_s}
     if split_depth:
@@ -133,6 +133,7 @@ def plan(prop, tier, seed):
         add(['tbshift_sym', 'tb2', 'tbshift'], K=3, until='symnc', caches=(False,), lazies=(True, False))
         add(['fanin', 'tbchain3', 'fanin_same'] if q else ['fanin', 'fanout', 'tbchain3', 'fanin_same', 'fanin_same2'], K=2)
         add(['hyb2'] if q else ['hyb2', 'ev2'], K=2 if q else 3, extra={'future_outputs': True})
+        add(['hyb2', 'tb_ev'] if q else ['hyb2', 'ev2', 'tb_ev', 'weak2', 'hyb2pm'], K=2, extra={'none_values': True})    # events whose value is None
         if not q:
             add(['tb2', 'tbshift', 'hyb2pm'], K=3, D=1, lazies=(True, False))
             add(three, K=2, lazies=(True, False))
@@ -161,6 +162,7 @@ def plan(prop, tier, seed):
         add(['multi_shift', 'multi_shift_rev'], K=3, lazies=(True,))
         add(['hyb2_init', 'tb_ev_init', 'ev2_init2'], K=2, caches=(True,))      # initial events: external causes that are no trigger inputs
         add(['chain3ev', 'chain3', 'shortcut3', 'shortcut3_sym'] if q else three, K=2, lazies=(True,) if q else (True, False))
+        add(['fanin_trig_sh'], K=2, until=4, caches=(True,), lazies=(True,), masks='sync' if q else 'sync+one', extra={'no_self': ['C']})
         add(['hyb2', 'ev2', 'tb_ev'], K=2 if q else 3, until='symnc', caches=(False,))
         add(['hyb2'] if q else ['hyb2', 'ev2'], K=2 if q else 3, extra={'future_outputs': True})
         if not q:
